@@ -6,6 +6,7 @@ import Macaroon.Bundle.Cache
 import Macaroon.Lemmas.Token
 import Macaroon.Lemmas.Header
 import Macaroon.Lemmas.Base64
+import Macaroon.Lemmas.Codec
 
 namespace Macaroon.Lemmas.BundleL
 open Macaroon Macaroon.Bundle Macaroon.Lemmas
@@ -475,6 +476,11 @@ theorem dischargeOne_unverified {loc ka : Bytes} {cb : Bundle.Discharger} {ticke
         split at h
         · simp at h
         · rename_i dm'' bytes henc
+          have hrb : readsBack bytes dm'' = true := by
+            cases hq : readsBack bytes dm'' with
+            | true => rfl
+            | false => simp [hq] at h
+          simp only [hrb, if_true] at h
           simp only [Option.some.injEq] at h
           have h1 : dm'' = (Concrete.encode dm').1 := by rw [henc]
           have h2 : dm' = (add dm items).1 := by rw [hadd]
@@ -677,7 +683,7 @@ theorem attMac_spec (items : List (AddItem Bytes)) (m : M) (s' : Str) (m' : M) (
     (h : Bundle.attMac items m = some (s', m', added)) :
     ∃ c bytes, (Concrete.encode m).2.bind Concrete.decode = some c ∧ (add c items).2 = none ∧
       Concrete.encode (add c items).1 = (m', some bytes) ∧ s' = macString bytes ∧
-      added = (add c items).1.cavs.drop c.cavs.length := by
+      added = (add c items).1.cavs.drop c.cavs.length ∧ Concrete.decode bytes = some m' := by
   unfold Bundle.attMac at h
   split at h
   · simp at h
@@ -688,11 +694,16 @@ theorem attMac_spec (items : List (AddItem Bytes)) (m : M) (s' : Str) (m' : M) (
       split at h
       · simp at h
       · rename_i c'' bytes henc
+        have hrb : readsBack bytes c'' = true := by
+          cases hq : readsBack bytes c'' with
+          | true => rfl
+          | false => simp [hq] at h
+        simp only [hrb, if_true] at h
         simp only [Option.some.injEq, Prod.mk.injEq] at h
         obtain ⟨rfl, rfl, rfl⟩ := h
         have h1 : (add c items).1 = c' := by rw [hadd]
         have h2 : (add c items).2 = none := by rw [hadd]
-        exact ⟨c, bytes, hc, h2, by rw [h1, henc], rfl, by rw [h1]⟩
+        exact ⟨c, bytes, hc, h2, by rw [h1, henc], rfl, by rw [h1], by simpa [readsBack] using hrb⟩
 
 
 /-! ### the invariant under attenuation and discharging -/
@@ -704,7 +715,7 @@ def CloneKeepsLoc (m : M) : Prop :=
 
 theorem attMac_loc (items : List (AddItem Bytes)) (m : M) (s' : Str) (m' : M) (added : CS)
     (h : Bundle.attMac items m = some (s', m', added)) (hc : CloneKeepsLoc m) : m'.loc = m.loc := by
-  obtain ⟨c, bytes, hclone, _, henc, _, _⟩ := attMac_spec items m s' m' added h
+  obtain ⟨c, bytes, hclone, _, henc, _, _, _⟩ := attMac_spec items m s' m' added h
   have h1 : m' = (Concrete.encode (add c items).1).1 := by rw [henc]
   rw [h1, (encode_keeps _).1, (add_keeps c items).1, hc c hclone]
 
@@ -848,7 +859,7 @@ theorem attenuate_verified_set (b : Bundle) (items : List (AddItem Bytes)) (hok 
   obtain ⟨t', ht', hft⟩ := map_some_of_mem hmap _ ht
   simp only [hp, if_true] at hft
   obtain ⟨s', m', added, hr, rfl⟩ := attTok_verified items s m cs t' hft
-  obtain ⟨c, bytes, hc, hadd, henc, hs, hadded⟩ := attMac_spec items m s' m' added hr
+  obtain ⟨c, bytes, hc, hadd, henc, hs, hadded, _⟩ := attMac_spec items m s' m' added hr
   exact ⟨s', m', c, bytes, hc, hadd, henc, hs, hadded ▸ ht'⟩
 
 /-- after a successful attenuation in which `Add` appended a third-party caveat to (the clone of)
@@ -871,7 +882,7 @@ theorem attenuated_3p_blocks (b : Bundle) (items : List (AddItem Bytes)) (hok : 
     cases t with
     | verified s m cs =>
       obtain ⟨s'', m'', added, hr, heq⟩ := attTok_verified items s m cs _ hft
-      obtain ⟨c, bytes, hc, _, _, _, hadded⟩ := attMac_spec items m s'' m'' added hr
+      obtain ⟨c, bytes, hc, _, _, _, hadded, _⟩ := attMac_spec items m s'' m'' added hr
       obtain ⟨loc, vk, tk, hm⟩ := h3p s m cs ht c hc
       simp only [Tok.verified.injEq] at heq
       refine ⟨loc, vk, tk, ?_⟩
@@ -884,6 +895,119 @@ theorem attenuated_3p_blocks (b : Bundle) (items : List (AddItem Bytes)) (hok : 
   · simp only [hp, Bool.false_eq_true, if_false, Option.some.injEq] at hft
     subst hft
     exact absurd (inv _ ht rfl) hp
+
+/-! ### after a successful `Discharge` nothing is left undischarged for that location -/
+
+theorem dischargesFor_append_left {pl : Bytes} {ts ds : List Tok} {τ : Bytes} {d : Tok} (h : d ∈ dischargesFor pl ts τ) :
+    d ∈ dischargesFor pl (ts ++ ds) τ := by
+  obtain ⟨h1, h2, h3⟩ := mem_dischargesFor.mp h
+  exact mem_dischargesFor.mpr ⟨List.mem_append_left _ h1, h2, h3⟩
+
+theorem mem_undischargedAt {pl : Bytes} {ts : List Tok} {loc τ : Bytes} :
+    τ ∈ undischargedAt pl ts loc ↔
+      ∃ p ∈ ts, isPermAt pl p = true ∧ (loc, τ) ∈ p.tickets ∧ dischargesFor pl ts τ = [] := by
+  simp only [undischargedAt, undischarged, List.mem_map, List.mem_filter, List.mem_flatMap, decide_eq_true_eq,
+    List.isEmpty_iff]
+  constructor
+  · rintro ⟨lt, ⟨⟨p, ⟨hp, hperm⟩, hlt, hemp⟩, hl⟩, rfl⟩
+    exact ⟨p, hp, hperm, by rw [← hl]; exact hlt, hemp⟩
+  · rintro ⟨p, hp, hperm, hlt, hemp⟩
+    exact ⟨(loc, τ), ⟨⟨p, ⟨hp, hperm⟩, hlt, hemp⟩, rfl⟩, rfl⟩
+
+/-- **discharge_then_none_undischarged**: after a successful `Discharge(loc, …)` — for a third-party
+location other than the bundle's own permission location — no ticket of `loc` is undischarged any more -/
+theorem discharge_then_none_undischarged (b : Bundle) (loc ka : Bytes) (cb : Bundle.Discharger) (rnds : List Bytes)
+    (hloc : loc ≠ b.permLoc) (hok : (b.discharge loc ka cb rnds).2 = false) :
+    (b.discharge loc ka cb rnds).1.undischargedTicketsFor loc = [] := by
+  obtain ⟨ds, hb', hk, hds⟩ := (discharge_effect b loc ka cb rnds).2 hok
+  rw [hb']
+  simp only [Bundle.undischargedTicketsFor]
+  rw [List.eq_nil_iff_forall_not_mem]
+  intro τ hτ
+  obtain ⟨p, hp, hperm, hlt, hemp⟩ := mem_undischargedAt.mp hτ
+  -- the new tokens are no permission tokens
+  have hnew : ∀ d ∈ ds, isPermAt b.permLoc d = false ∧ d.isWellFormed = true := by
+    intro d hd
+    obtain ⟨hu, hl⟩ := hds d hd
+    cases d with
+    | unverified s m =>
+      simp only [isPermAt_unverified, decide_eq_true_eq] at hl
+      exact ⟨by simp [isPermAt_unverified, hl, hloc], rfl⟩
+    | nonMac s => simp [Tok.isUnverified] at hu
+    | malformed s => simp [Tok.isUnverified] at hu
+    | verified s m cs => simp [Tok.isUnverified] at hu
+    | failed s m => simp [Tok.isUnverified] at hu
+  have hp' : p ∈ b.ts := by
+    rcases List.mem_append.mp hp with h | h
+    · exact h
+    · rw [(hnew p h).1] at hperm; cases hperm
+  -- was the ticket undischarged before?
+  by_cases hold : dischargesFor b.permLoc b.ts τ = []
+  · have hin : τ ∈ b.undischargedTicketsFor loc := mem_undischargedAt.mpr ⟨p, hp', hperm, hlt, hold⟩
+    have : some τ ∈ ds.map Tok.kid? := by rw [hk]; exact List.mem_map_of_mem hin
+    obtain ⟨d, hd, hkd⟩ := List.mem_map.mp this
+    have hdm : d ∈ dischargesFor b.permLoc (b.ts ++ ds) τ :=
+      mem_dischargesFor.mpr ⟨List.mem_append_right _ hd, by simp [isDisAt, (hnew d hd).1, (hnew d hd).2], hkd⟩
+    rw [hemp] at hdm
+    cases hdm
+  · obtain ⟨d, hd⟩ := List.exists_mem_of_ne_nil _ hold
+    have := dischargesFor_append_left (ds := ds) hd
+    rw [hemp] at this
+    cases this
+
+/-! ### `Clone` is faithful (where printing and re-parsing can be) -/
+
+/-- a token is what re-parsing its text gives, up to the verification result (`Unverified()`): true of
+every parsed token, kept by `Verify`, and true of what `Attenuate` / `Discharge` mint -/
+def Stable (t : Tok) : Prop := ofHeaderTok (Header.classifyPart t.str) = t.unverify
+
+theorem stable_parsed (h : Str) : ∀ t ∈ parseToks h, Stable t := by
+  intro t ht
+  simp only [parseToks, Header.parseToks, List.mem_map] at ht
+  obtain ⟨x, ⟨part, _, rfl⟩, rfl⟩ := ht
+  simp only [Stable, Header.parseTok, ofHeaderTok_str, Macaroon.Header.classifyPart_str]
+  generalize Header.classifyPart (Header.trim part) = y
+  cases y with
+  | nonMacaroon s => rfl
+  | malformedB64 s => rfl
+  | macaroonBytes s raw => rcases ofHeaderTok_bytes s raw with h | ⟨m, h⟩ <;> rw [h] <;> rfl
+
+theorem headerOf_eq_decorate (ts : List Tok) (h : ts ≠ []) :
+    headerOf ts = Header.decorate Header.flyV1Deco (tokString ts) := by
+  cases ts with
+  | nil => exact absurd rfl h
+  | cons t ts => simp [headerOf, Header.decorate, Header.flyV1Deco, Header.wordsText]
+
+/-- **clone_faithful**: for a bundle whose tokens are stable and whose token texts contain no white
+space and no comma, and which does not print as the empty string, `Clone` yields the same tokens in
+the same order, each as it was before verification -/
+theorem clone_faithful (b : Bundle) (hst : ∀ t ∈ b.ts, Stable t) (hsp : ∀ t ∈ b.ts, Header.NoSpace t.str)
+    (hc : ∀ t ∈ b.ts, ',' ∉ t.str) (hne : tokString b.ts ≠ []) :
+    b.clone.permLoc = b.permLoc ∧ b.clone.ts = b.ts.map Tok.unverify := by
+  refine ⟨rfl, ?_⟩
+  have hts : b.ts ≠ [] := by
+    intro e
+    rw [e] at hne
+    exact hne rfl
+  have hbody : Header.NoSpace (tokString b.ts) := by
+    intro c hcm
+    rcases Header.mem_joinWith ',' _ c hcm with h1 | ⟨p, hp, hcp⟩
+    · rw [h1]; decide
+    · obtain ⟨t, ht, rfl⟩ := List.mem_map.mp hp
+      exact hsp t ht c hcp
+  have hstrip : (Header.stripScheme b.header).1 = tokString b.ts := by
+    simp only [Bundle.header]
+    rw [headerOf_eq_decorate b.ts hts, Header.strip_decorate _ Header.flyV1Deco_valid _ hbody hne]
+  have hparts : Header.parts b.header = b.ts.map Tok.str := by
+    simp only [Header.parts, hstrip, tokString]
+    exact Header.splitOn_joinWith ',' _ (by simpa using hts) (fun p hp => by
+      obtain ⟨t, ht, rfl⟩ := List.mem_map.mp hp
+      exact hc t ht)
+  simp only [Bundle.clone, parseToks, Header.parseToks, hparts, List.map_map]
+  apply List.map_congr_left
+  intro t ht
+  simp only [Function.comp, Header.parseTok, Header.trim_of_noSpace (hsp t ht)]
+  exact hst t ht
 
 /-! ## The verification cache -/
 
@@ -1095,17 +1219,17 @@ theorem attTok_clean (items : List (AddItem Bytes)) (t t' : Tok) (h : Bundle.att
   | unverified s m =>
     simp only [Bundle.attTok, Option.map_eq_some_iff] at h
     obtain ⟨⟨s', m', added⟩, hr, rfl⟩ := h
-    obtain ⟨_, bytes, _, _, _, rfl, _⟩ := attMac_spec items m s' m' added hr
+    obtain ⟨_, bytes, _, _, _, rfl, _, _⟩ := attMac_spec items m s' m' added hr
     exact macString_clean bytes
   | verified s m cs =>
     simp only [Bundle.attTok, Option.map_eq_some_iff] at h
     obtain ⟨⟨s', m', added⟩, hr, rfl⟩ := h
-    obtain ⟨_, bytes, _, _, _, rfl, _⟩ := attMac_spec items m s' m' added hr
+    obtain ⟨_, bytes, _, _, _, rfl, _, _⟩ := attMac_spec items m s' m' added hr
     exact macString_clean bytes
   | failed s m =>
     simp only [Bundle.attTok, Option.map_eq_some_iff] at h
     obtain ⟨⟨s', m', added⟩, hr, rfl⟩ := h
-    obtain ⟨_, bytes, _, _, _, rfl, _⟩ := attMac_spec items m s' m' added hr
+    obtain ⟨_, bytes, _, _, _, rfl, _, _⟩ := attMac_spec items m s' m' added hr
     exact macString_clean bytes
 
 theorem mem_of_map_eq_map_some {α β : Type} {f : α → Option β} : ∀ {l : List α} {r : List β}, l.map f = r.map some →
@@ -1142,7 +1266,12 @@ theorem dischargeOne_clean {loc ka : Bytes} {cb : Bundle.Discharger} {ticket rnd
       · simp at h
       · split at h
         · simp at h
-        · rename_i bytes _
+        · rename_i dm'' bytes _
+          have hrb : readsBack bytes dm'' = true := by
+            cases hq : readsBack bytes dm'' with
+            | true => rfl
+            | false => simp [hq] at h
+          simp only [hrb, if_true] at h
           simp only [Option.some.injEq] at h
           subst h
           exact macString_clean bytes
@@ -1249,7 +1378,8 @@ theorem macOf_macString (bytes : Bytes) : macOf (macString bytes) = Concrete.dec
 
 theorem dischargeOne_spec {loc ka : Bytes} {cb : Bundle.Discharger} {ticket rnd : Bytes} {d : Tok}
     (h : Bundle.dischargeOne loc ka cb ticket rnd = some d) :
-    ∃ dm' dm'' bytes, Concrete.encode dm' = (dm'', some bytes) ∧ d = .unverified (macString bytes) dm'' := by
+    ∃ dm' dm'' bytes, Concrete.encode dm' = (dm'', some bytes) ∧ d = .unverified (macString bytes) dm'' ∧
+      Concrete.decode bytes = some dm'' := by
   unfold Bundle.dischargeOne at h
   split at h
   · simp at h
@@ -1261,22 +1391,70 @@ theorem dischargeOne_spec {loc ka : Bytes} {cb : Bundle.Discharger} {ticket rnd 
         split at h
         · simp at h
         · rename_i dm'' bytes henc
+          have hrb : readsBack bytes dm'' = true := by
+            cases hq : readsBack bytes dm'' with
+            | true => rfl
+            | false => simp [hq] at h
+          simp only [hrb, if_true] at h
           simp only [Option.some.injEq] at h
-          exact ⟨dm', dm'', bytes, henc, h.symm⟩
+          exact ⟨dm', dm'', bytes, henc, h.symm, by simpa [readsBack] using hrb⟩
 
-/-- for the real codec `MintSynced` is the round trip of the token codec on the tokens that
-`Attenuate` and `Discharge` print (`decode_encode_mac` of C11) -/
-theorem mintSynced_of_roundtrip
-    (h : ∀ m m' bytes, Concrete.encode m = (m', some bytes) → Concrete.decode bytes = some m') : MintSynced macOf := by
+/-- **minted tokens are synced**: `Attenuate` and `Discharge` (as modelled: defined where the printed
+text reads back as the stored token, `readsBack`) only ever put tokens into a bundle whose macaroon
+is what their text decodes to -/
+theorem mintSynced_macOf : MintSynced macOf := by
   constructor
   · intro items m s' m' added hr
-    obtain ⟨c, bytes, _, _, henc, rfl, _⟩ := attMac_spec items m s' m' added hr
+    obtain ⟨c, bytes, _, _, _, rfl, _, hdec⟩ := attMac_spec items m s' m' added hr
     rw [macOf_macString]
-    exact h _ _ _ henc
+    exact hdec
   · intro loc ka cb ticket rnd d hd
-    obtain ⟨dm', dm'', bytes, henc, rfl⟩ := dischargeOne_spec hd
+    obtain ⟨dm', dm'', bytes, _, rfl, hdec⟩ := dischargeOne_spec hd
     simp only [Synced, Tok.mac?, Tok.str, macOf_macString]
-    exact (h _ _ _ henc).symm
+    exact hdec.symm
+
+/-! ### why minting is guarded by `readsBack`: a caller-supplied value need not be canonical -/
+
+/-- a token whose only caveat is a resource set written in the order `b, a` … -/
+def unsortedTok : M :=
+  { nonce := ⟨[1], [2], 1, false⟩, loc := [65], cavs := [.volumes [([98], 1), ([97], 1)]], tail := [9], newProof := false }
+/-- … and the same token with the set in the order the decoder produces -/
+def sortedTok : M := { unsortedTok with cavs := [.volumes [([97], 1), ([98], 1)]] }
+
+theorem sortedTok_wf : WFMac (Concrete.toWire sortedTok) := ⟨by decide, by decide, ⟨by decide, by decide⟩, by decide⟩
+
+/-- the two print the same text (the encoder sorts), that text reads back as the SORTED one, and they
+are different values: so without the guard two attenuations (with `[("b",1),("a",1)]` and with
+`[("a",1),("b",1)]`) would store different macaroons under one text, and "the macaroon is what the
+text decodes to" could hold for no decoder -/
+theorem unsorted_resource_set_does_not_read_back :
+    (Concrete.encode unsortedTok).2 = (Concrete.encode sortedTok).2 ∧
+    (Concrete.encode unsortedTok).2.bind Concrete.decode = some sortedTok ∧
+    unsortedTok ≠ sortedTok ∧
+    (∀ bytes, (Concrete.encode unsortedTok).2 = some bytes → readsBack bytes unsortedTok = false ∧ readsBack bytes sortedTok = true) ∧
+    (∀ (μ : Str → Option M) (s : Str), ¬ (Synced μ (.unverified s unsortedTok) ∧ Synced μ (.unverified s sortedTok))) := by
+  have t1 : (Concrete.encode unsortedTok).2 = (Concrete.encode sortedTok).2 := by decide
+  have t3 : unsortedTok ≠ sortedTok := by decide
+  have t2 : (Concrete.encode sortedTok).2.bind Concrete.decode = some sortedTok := by
+    have h := Macaroon.decode_encode_mac (Concrete.toWire sortedTok) defaultFuel [] sortedTok_wf (by decide)
+    simp only [List.append_nil] at h
+    have he : (Concrete.encode sortedTok).2 = some (encMac (Concrete.toWire sortedTok)) := by decide
+    rw [he]
+    simp only [Option.bind_some, Concrete.decode, h, Option.map_some]
+    rfl
+  have t2' : (Concrete.encode unsortedTok).2.bind Concrete.decode = some sortedTok := by rw [t1]; exact t2
+  refine ⟨t1, t2', t3, ?_, ?_⟩
+  · intro bytes hb
+    have hd : Concrete.decode bytes = some sortedTok := by
+      rw [hb] at t2'
+      simpa using t2'
+    constructor
+    · simp only [readsBack, hd, decide_eq_false_iff_not, Option.some.injEq]
+      exact fun e => t3 e.symm
+    · simp [readsBack, hd]
+  · intro μ s ⟨h1, h2⟩
+    simp only [Synced, Tok.mac?, Tok.str] at h1 h2
+    exact t3 (Option.some.inj (h1.trans h2.symm))
 
 /-! ### transparency of one cached verification -/
 
